@@ -81,7 +81,9 @@ def cls(v):
 
 
 def gen_text(r, n):
-    alphabet = ["a", "Z", "0", "/", "?", "&", "=", "%", "#", " ", "ä", "€", "\U0001f600", "\x00", "\x7f", "�"]
+    # includes text that is valid UTF-8 but not in NFC (decomposed accent, singletons, conjoining jamo, reordered
+    # combining marks): option values are opaque to the codec and must not be normalised
+    alphabet = ["a", "Z", "0", "/", "?", "&", "=", "%", "#", " ", "ä", "€", "\U0001f600", "\x00", "\x7f", "�", "e\u0301", "\u212b", "\u2126", "\uf900", "\u1100\u1161", "a\u0323\u0307", "a\u0307\u0323"]
     return "".join(r.choice(alphabet) for _ in range(n))
 
 
